@@ -312,12 +312,18 @@ def rule_structural_discharges(ctx):
                 continue
             pm = hq.parent_map(bb["body"])
             for c in mine:
-                k = hq.const_of(c["args"][2])
+                # the operator argument, by type (its position is the signature's business)
+                opi = [i_ for i_, a_ in enumerate(c["args"]) if "BinaryOperator" in str(a_.get("ty", "")) or "BinaryOperator" in str(strip(a_).get("ty", ""))]
+                if len(opi) != 1:
+                    got.append(None)
+                    continue
+                opi = opi[0]
+                k = hq.const_of(c["args"][opi])
                 if k and k[0] == "variant":
                     got.append(k[2])
                     continue
                 # the operator handed on is the one an enclosing `match op { A | B => f(.., op) }` has just matched: one value per alternative
-                want_src = hq.render(strip(c["args"][2])).lstrip("*&")
+                want_src = hq.render(strip(c["args"][opi])).lstrip("*&")
                 cur, alts = c, None
                 for _ in range(40):
                     par = pm.get(id(cur))
